@@ -23,7 +23,7 @@ canonical spelling, so a rule sees the same tree whichever one the author chose:
   D14 [a, b][k]                          -> the k-th element (literal sequence, constant k)
   D16 x.reshape((a, b)) -> x.reshape(a, b) (view / expand / repeat / permute / tile alike); D17 X[a:b][k] -> X[a + k]
   D18 aliases of torch sub-modules (`nn`, `F`) -> `torch.nn`, `torch.nn.functional`; D19 `x.add_(y)` as a statement -> `x += y` (sub_/mul_/div_ alike)
-  D14b (a, b, c)[1:] -> (b, c); D20 f(*(a, b)) -> f(a, b); D21 [v for v in xs] -> list(xs); D24 tuple([a, b]) -> (a, b); D25 (a, b) + (c, d) -> (a, b, c, d); D22 y = x.mul_(a).add_(b) -> x *= a; x += b; y = x
+  D14b (a, b, c)[1:] -> (b, c); D20 f(*(a, b)) -> f(a, b); D21 [v for v in xs] -> list(xs); D24 tuple([a, b]) -> (a, b); D25 (a, b) + (c, d) -> (a, b, c, d); D26 torch.nonzero(m, as_tuple=True) -> torch.where(m); D22 y = x.mul_(a).add_(b) -> x *= a; x += b; y = x
   D15 [*xs]                              -> list(xs)
   D12 X.m(a, q=b) -> X.m(a, b) when q is the next positional parameter of every definition of method m in the package
 
@@ -185,6 +185,13 @@ class Canon(ast.NodeTransformer):
     # ------------------------------------------------------------ calls
     def visit_Call(self, node: ast.Call):
         self.generic_visit(node)
+        # D26 torch.nonzero(m, as_tuple=True) / m.nonzero(as_tuple=True) -> torch.where(m) (documented as identical)
+        if len(node.keywords) == 1 and node.keywords[0].arg == "as_tuple" and isinstance(node.keywords[0].value, ast.Constant) and node.keywords[0].value.value is True \
+                and isinstance(node.func, ast.Attribute) and node.func.attr == "nonzero":
+            if isinstance(node.func.value, ast.Name) and node.func.value.id == "torch" and len(node.args) == 1:
+                return self._hit(ast.Call(func=_torch_attr("where", node), args=[node.args[0]], keywords=[]), node)
+            if not node.args and not (isinstance(node.func.value, ast.Name) and node.func.value.id == "torch"):
+                return self._hit(ast.Call(func=_torch_attr("where", node), args=[node.func.value], keywords=[]), node)
         # D24 tuple([a, b]) -> (a, b) and list((a, b)) -> [a, b] for displays of fixed length
         if isinstance(node.func, ast.Name) and node.func.id in ("tuple", "list") and len(node.args) == 1 and not node.keywords \
                 and isinstance(node.args[0], (ast.List, ast.Tuple)) and not _loop_built(node.args[0]) and not any(isinstance(x, ast.Starred) for x in node.args[0].elts):
